@@ -1,4 +1,4 @@
-/- Drv/Mut.lean — `fvdriver mut`: `<root> <path: f|i|p letters or -> <form>` → `<implRejects> <immutable>` -/
+/- Drv/Mut.lean — `fvdriver mut`: `<root> <path: f|i|p letters or -> <form>` (F/I: field / element holding `&T`, G/J: holding `&'T`) → `<implRejects> <mustReject>` -/
 import FerretVerif.Model.Mut
 import FerretVerif.Drv.Util
 namespace FerretVerif.Drv
@@ -14,12 +14,16 @@ def formOf? : String → Option Form
   | "mutborrow" => some .mutBorrow | "passmut" => some .passMut | "mutmethod" => some .callMutMethod | _ => none
 /-- path letters, OUTERMOST segment first (as `Chain.ofPath` expects) -/
 def pathOf? (s : String) : Option (List Seg) :=
-  if s == "-" then some [] else s.toList.mapM fun c => if c == 'f' then some .fld else if c == 'i' then some .idx else if c == 'p' then some .paren else none
+  if s == "-" then some [] else s.toList.mapM fun c =>
+    if c == 'f' then some (.fld .val) else if c == 'i' then some (.idx .val) else if c == 'p' then some .paren
+    else if c == 'F' then some (.fld .imm) else if c == 'I' then some (.idx .imm)       -- the step yields an immutable reference
+    else if c == 'G' then some (.fld .mut) else if c == 'J' then some (.idx .mut)       -- … a mutable reference
+    else none
 
 def cmdMut (l : String) : String :=
   match fields l with
   | [r, p, f] => match rootOf? r, pathOf? p, formOf? f with
-    | some r, some p, some f => s!"{implRejects r p f} {r.immutable}"
+    | some r, some p, some f => s!"{implRejects r p f} {mustReject r p}"
     | _, _, _ => "bad-op"
   | _ => "bad-op"
 end FerretVerif.Drv
